@@ -202,7 +202,7 @@ def cvc5_check(smt2, ms):
             pass
 
 
-def discharge_all(obligs, scope=None, jobs=16, want_refute=True, second_solver=False):
+def discharge_all(obligs, scope=None, jobs=16, want_refute=True, second_solver=False, scopes=None):
     """obligs: list of interp.Obligation.  Returns list of result dicts (same order)."""
     jl = []
     for i, ob in enumerate(obligs):
@@ -210,7 +210,8 @@ def discharge_all(obligs, scope=None, jobs=16, want_refute=True, second_solver=F
         if z3.is_true(s):
             jl.append(None)
             continue
-        jl.append({"id": i, "smt2": to_smt2(ob.hyps, ob.claim), "scope": scope, "want_refute": want_refute})
+        jl.append({"id": i, "smt2": to_smt2(ob.hyps, ob.claim), "scope": scopes[i] if scopes else scope,
+                   "want_refute": want_refute})
     # identical queries (same path prefix re-executed on sibling paths) are solved once
     first = {}
     dup = {}
